@@ -26,7 +26,9 @@ Record column := { c_name : bytes; c_table : Z; c_attrno : Z; c_oid : Z; c_width
 Inductive value :=
 | VNil | VNilPtr | VInvalid                      (* the three NULLs *)
 | VText (s : bytes) | VInt2 (z : Z) | VInt4 (z : Z) | VInt8 (z : Z)
-| VBool (b : bool) | VBytea (b : bytes) | VUnenc.
+| VBool (b : bool) | VBytea (b : bytes) | VUnenc
+| VUuid (b : bytes)                  (* [16]byte *)
+| VFloat4 (bits : Z) | VFloat8 (bits : Z).   (* IEEE bit patterns *)
 
 Inductive encres := EncBytes (b : bytes) | EncNull | EncErr | EncPanic.
 
